@@ -57,7 +57,7 @@ def regenerate(tier):
 
 def gen(rng, tier):
     cases = []
-    per = dict(ing=1500, vs=700, vsr=300, ts=400, pol=400) if tier == "quick" else dict(ing=20000, vs=8000, vsr=3000, ts=4000, pol=4000)
+    per = dict(ing=1500, vs=700, vsr=300, ts=400, pol=900) if tier == "quick" else dict(ing=20000, vs=8000, vsr=3000, ts=4000, pol=9000)
     base = rng.below(1 << 30)
     for kind, n in per.items():
         for i in range(n):
